@@ -296,6 +296,8 @@ const (
 	SpShift                    // 8 << 1u
 	SpConv                     // u32(16)
 	SpTrailComma               // 16,
+	SpSpaces                   // @align( 16 )
+	SpComment                  // @align(/* c */ 16)
 	SpConst                    // K      with `const K = 16;` declared before the struct
 	SpConstAfter               // K      with the const declared after the struct
 	SpConstU32                 // K      with `const K: u32 = 16u;`
@@ -304,7 +306,7 @@ const (
 	xSpellCount
 )
 
-var xSpellNames = [...]string{"dec", "dec-u", "dec-i", "hex", "hex-u", "hex-upper", "paren", "mul", "add", "shift", "conv", "trailing-comma",
+var xSpellNames = [...]string{"dec", "dec-u", "dec-i", "hex", "hex-u", "hex-upper", "paren", "mul", "add", "shift", "conv", "trailing-comma", "spaces", "comment",
 	"const", "const-after", "const-u32", "const-i32", "const-expr"}
 
 func (s XSpell) String() string { return xSpellNames[s] }
@@ -346,6 +348,10 @@ func (s XSpell) spell(v int, constName string) (arg, decl string, after bool) {
 		return fmt.Sprintf("u32(%d)", v), "", false
 	case SpTrailComma:
 		return fmt.Sprintf("%d,", v), "", false
+	case SpSpaces:
+		return fmt.Sprintf(" %d ", v), "", false
+	case SpComment:
+		return fmt.Sprintf("/* c */ %d", v), "", false
 	case SpConst:
 		return constName, fmt.Sprintf("const %s = %d;", constName, v), false
 	case SpConstAfter:
@@ -441,8 +447,8 @@ func XProbes(name string, t *XT) []XProbe {
 
 // XPrint renders an F3x program: `enable f16;` when needed, module constants used by attribute
 // spellings, the struct declarations (innermost first), the globals, an output buffer `o`, and a
-// compute entry point that reads the corner leaves of every storage/uniform global into `o` and
-// touches every workgroup global.
+// compute entry point that reads the corner leaves of every global into `o` and then writes the
+// corner leaves of every read_write storage global.
 func XPrint(globals []XGlobal) string {
 	var sb strings.Builder
 	f16 := false
@@ -555,6 +561,20 @@ func XPrint(globals []XGlobal) string {
 			}
 			fmt.Fprintf(&sb, "  o[%d] = %s;\n", k, rd)
 			k++
+		}
+	}
+	// every corner leaf of a read_write storage global is also written (one store per leaf)
+	for _, g := range globals {
+		if g.Space != "storage" || !g.RW {
+			continue
+		}
+		for _, p := range XProbes(g.Name, g.T) {
+			one := map[string]string{"f16": "1.0h", "f32": "1.0", "i32": "1i", "u32": "1u"}[p.S]
+			if p.Atomic {
+				fmt.Fprintf(&sb, "  atomicStore(&%s, %s);\n", p.Path, one)
+			} else {
+				fmt.Fprintf(&sb, "  %s = %s;\n", p.Path, one)
+			}
 		}
 	}
 	sb.WriteString("}\n")
